@@ -42,7 +42,7 @@ func c13Env() map[string]any {
 		"n": 5, "k": 2, "f": 1.5, "s": "str", "e": "", "t": true, "b": false, "ns": "42",
 		"sp1": "a b", "sp2": "a  b", "up": "A  b",
 		// variables whose names strconv would take for a boolean or a float
-		"T": 2, "nan": 4, "F": "eff", "big": 300, "minus": -1, "ix": 1, "kk": "k", "ue": "h\u00e9llo", "mm": map[string]any{"kk": "LIT", "k": "VAR"}, "fname": "secret.path", "secret": map[string]any{"path": "b.txt"}, "fbig": 1500000.0, "fsmall": 0.00002, "fneg": -2.5e7, "zp": "010", "zip": "08540", "eq3": "a===b", "ne3": "a!==b", "amp2": "a && b", "q3": "a ? b : c",
+		"T": 2, "nan": 4, "F": "eff", "big": 300, "minus": -1, "ix": 1, "kk": "k", "formatDate": "FDVAR", "jsonPretty": 7, "yamlFile": "YF", "ue": "h\u00e9llo", "mm": map[string]any{"kk": "LIT", "k": "VAR"}, "fname": "secret.path", "secret": map[string]any{"path": "b.txt"}, "fbig": 1500000.0, "fsmall": 0.00002, "fneg": -2.5e7, "zp": "010", "zip": "08540", "eq3": "a===b", "ne3": "a!==b", "amp2": "a && b", "q3": "a ? b : c",
 		"m":  map[string]any{"k": "mk", "l": []any{"x", "y"}, "n": 7},
 		"l":  []int{10, 20},
 		"st": c13Struct{Field: "SF", Num: 3},
@@ -412,8 +412,13 @@ func c13ObserveEnv(ctx *core.Ctx, t vuego.Template, pos, expr string, env map[st
 		tpl = `<template :y=` + q + expr + q + `><p id="r">[{{ y }}]</p></template>`
 	case "tmplbindif":
 		tpl = `<template v-if="t" v-bind:y=` + q + expr + q + `><p id="r">[{{ y }}]</p></template>`
+	case "tmplbindlong":
+		tpl = `<template v-bind:y=` + q + expr + q + `><p id="r">[{{ y }}]</p></template>`
 	case "objprop":
 		tpl = `<template :o=` + q + `{a: ` + expr + `}` + q + `><p id="r">[{{ o.a }}]</p></template>`
+	case "slotbind": // a prop that a component's slot binds, printed by the includer's slot content
+		tpl = `<template include="c13slot.vuego"><template v-slot="sp"><p id="r">[{{ sp.y }}]</p></template></template>`
+		t = vuego.New(vuego.WithFS(fstest.MapFS{"c13slot.vuego": {Data: []byte(`<div><slot :y=` + q + expr + q + `>fb</slot></div>`)}}), vuego.WithFuncs(c13Funcs()))
 	}
 	var buf bytes.Buffer
 	ctx.Eval(1)
@@ -422,7 +427,13 @@ func c13ObserveEnv(ctx *core.Ctx, t vuego.Template, pos, expr string, env map[st
 	}
 	r := htmlcmp.ByID(htmlcmp.Parse(buf.String()), "r")
 	switch pos {
-	case "mustache":
+	case "classobj":
+		if r == nil {
+			return "<lost>", nil
+		}
+		cl, _ := htmlcmp.Attr(r, "class")
+		return fmt.Sprint(strings.Contains(" "+cl+" ", " on ")), nil
+	case "mustache", "tmplbind", "tmplbindif", "tmplbindlong", "slotbind":
 		if r == nil {
 			return "<lost>", nil
 		}
@@ -513,7 +524,28 @@ func (c *c13Case) Run(ctx *core.Ctx) {
 				ctx.Violation(mode, pos, shape, fmt.Sprintf("%s in %s: observed %q, conventional value %s gives %q", c.Expr, pos, got, c.Want, exp))
 			}
 		}
+		// the value of a :class key is judged like the condition of a v-if
+		if cond, ok := obs["vif"]; ok && cond != "<error>" && !strings.ContainsAny(c.Expr, "{}") {
+			if got, err := c13Observe(ctx, "classobj", c.Expr); err == nil && got != cond {
+				ctx.Violation("wrong-value", "classobj", c.Shape, fmt.Sprintf("%s as the value of a :class key sets the class: %s; as a v-if condition it is %s", c.Expr, got, cond))
+			} else if err != nil && err.Error() != "unquotable" {
+				ctx.Violation("expr-error", "classobj", c.Shape, fmt.Sprintf("%s as the value of a :class key: render failed: %v (v-if: %s)", c.Expr, err, cond))
+			}
+		}
 		ctx.Outcome(fmt.Sprint(obs))
+	case "tmplvalue":
+		// what <template :y="expr"> binds is what {{ expr }} prints (short and long form, with and without v-if)
+		want, err0 := c13Observe(ctx, "mustache", c.Expr)
+		for _, pos := range []string{"tmplbind", "tmplbindlong", "tmplbindif", "slotbind"} {
+			got, err := c13Observe(ctx, pos, c.Expr)
+			if err != nil && err.Error() == "unquotable" {
+				continue
+			}
+			if (err != nil) != (err0 != nil) || (err == nil && got != want) {
+				ctx.Violation("wrong-value", pos, c.Shape, fmt.Sprintf("%s in %s binds %q (err %v); {{ }} prints %q (err %v)", c.Expr, pos, got, err, want, err0))
+			}
+		}
+		ctx.Outcome(want)
 	case "file":
 		// file(), jsonFile(), yamlFile(): the argument's value is the file name - it is not looked up
 		// in the data a second time (there "secret.path" is the path to "b.txt")
@@ -650,9 +682,9 @@ func (c *c13Case) Run(ctx *core.Ctx) {
 			}
 		}
 	case "error":
-		positions := []string{"mustache", "bind", "vif", "vshow"}
+		positions := []string{"mustache", "bind", "vif", "vshow", "tmplbind", "tmplbindif", "tmplbindlong", "slotbind"}
 		if !strings.Contains(c.Expr, "|") {
-			positions = append(positions, "classobj", "styleobj", "tmplbind", "tmplbindif", "objprop")
+			positions = append(positions, "classobj", "styleobj", "objprop")
 		}
 		for _, pos := range positions {
 			got, err := c13Observe(ctx, pos, c.Expr)
@@ -810,6 +842,15 @@ func init() {
 			} {
 				emit(&c13Case{Part: "file", Expr: e[0], Shape: "file-by-name", Want: "string:" + e[1]})
 			}
+			for _, e := range []string{"n", "s", "m.k", "l[1]", "st.tag", "n + 1", "s | upper", "upper(s)", "double(n) + 1", "n > k ? s : e", "'lit'", "5", "true", "zz", "!b", "n | . + 1",
+				// variables named like registered functions, by their bare name
+				"formatDate", "jsonPretty", "yamlFile", "yamlFile | upper", "jsonPretty + 1", "formatDate + '!'"} {
+				shape := "template-binding"
+				if strings.HasPrefix(e, "formatDate") || strings.HasPrefix(e, "jsonPretty") || strings.HasPrefix(e, "yamlFile") {
+					shape = "template-binding:variable-named-like-registered-function"
+				}
+				emit(&c13Case{Part: "tmplvalue", Expr: e, Shape: shape})
+			}
 			// floats whose string form has an exponent: one value, one text in every position
 			for _, e := range []struct {
 				src string
@@ -922,6 +963,10 @@ func init() {
 				// registered functions that share their name with one of the expression library: the registered one is meant
 				{"len(ue) == 6", "bool:true"}, {"len(ue) + 0", "int:6"}, {"len(ue) > 5 && t", "bool:true"}, {"type(f) == 'float64'", "bool:true"}, {"type(n) + '!'", "string:int!"}, {"upper(ue) + '!'", "string:H\u00c9LLO!"},
 				{"'nosuch(1)' + s", "string:nosuch(1)str"},
+				// calls joined by an operator without spaces around it
+				{"double(n)+double(k)", "int:14"}, {"double(n)+1", "int:11"}, {"double(n)>5", "bool:true"}, {"shout(s)=='STR!'", "bool:true"}, {"double(n)*double(k)", "int:40"}, {"len(s)+len(ue)", "int:9"},
+				// a variable that cannot be called does not hide the registered function of its name from a call
+				{"jsonPretty(n) + '!'", "string:5!"}, {"jsonPretty(n) == '5'", "bool:true"},
 				// a name that is registered as a function but only mentioned (not called) is the variable of that name - here: undefined
 				{"len(l) > 0 && title", "bool:false"}, {"len(l) > 0 && !title", "bool:true"}, {"(title)", "nil:"}, {"double(n) > 0 && shout", "bool:false"}, {"(upper) == nil", "bool:true"}, {"(n) + 1", "int:6"}, {"not (n > k)", "bool:false"},
 			} {
